@@ -311,6 +311,16 @@ class _MeasHooks:
             return base
         return None
 
+    def compare(self, ev, node, a, b):
+        # the row selected from the data table is a value, not None
+        import ast as _ast
+        op = node.ops[0]
+        if isinstance(op, (_ast.Is, _ast.IsNot)):
+            for x, y in ((a, b), (b, a)):
+                if isinstance(x, Opaque) and x.tag == 'data.row' and y is None:
+                    return isinstance(op, _ast.IsNot)
+        return None
+
     def branch(self, ev, node, env):
         t = norm_text(node.test)
         if 'not in self.data.index' in t:
@@ -563,6 +573,16 @@ class _JH(RotHooks):
         if isinstance(base, Rec) and getattr(base, 'euler', None) is not None and \
                 isinstance(idx, (list, tuple)) and list(idx) == list(self.rph_cols):
             return base.euler
+        return None
+
+    def compare(self, ev, node, a, b):
+        # the row selected from the data table is a value, not None
+        import ast as _ast
+        op = node.ops[0]
+        if isinstance(op, (_ast.Is, _ast.IsNot)):
+            for x, y in ((a, b), (b, a)):
+                if isinstance(x, Opaque) and x.tag == 'data.row' and y is None:
+                    return isinstance(op, _ast.IsNot)
         return None
 
     def branch(self, ev, node, env):
